@@ -116,10 +116,16 @@ impl Property for C14 {
                     }
                     let fdp = DATA + 0x10;
                     ax.mem_write_bytes(fdp, &[0xaa; 16]).unwrap();
+                    if !pipes.is_empty() {
+                        out = out.class("pipe-create-beside-existing-pipes");
+                    }
                     let (r, ev) = sys(&mut ax, 22, fdp, 0, 0);
                     match r {
                         Api::Ok(_) => {}
-                        Api::Err(e) if e.contains("Duplicate") => return CaseOut::discard("random-descriptor-collision"),
+                        // the handler draws descriptor numbers at random (16 bits) and refuses a number that is
+                        // already a pipe end: with pipes open, a refusal with a valid buffer ends the history
+                        // without a verdict; post_check bounds how often that may happen (no error text is read)
+                        Api::Err(_) if !pipes.is_empty() => return out.class("pipe-create-refused-beside-existing-pipes"),
                         other => {
                             fail(&mut out, &format!("pipe|{}", if let Api::Panic(p) = &other { p.signature() } else { "failed".into() }), format!("{}: pipe() answered {}", desc, other.short()));
                             return out;
@@ -346,10 +352,20 @@ impl Property for C14 {
     fn rule(&self) -> String {
         "cases: histories of 1–39 syscalls over pipe(), write(fd,buf,n), read(fd,buf,n) on 1–4 pipes and on non-pipe descriptors {0,1,2,3,5,100,1023} (40 % of them with a buffer that runs past its area, is unmapped or NULL), n ∈ {0,1,<8,300,uniform ≤300}, 15 % of the pipe reads into a destination that cannot take the data (a refused read must not consume), 5 % calls on the wrong end of a pipe; with a user SYSCALL hook registered after handle_syscalls([Pipe]); one VecDeque per pipe is the model: count ≤ requested and ≤ available, ≥1 when both positive, exactly the next bytes, buffer beyond the count untouched, pipe calls never reach the user hook, foreign calls reach it exactly once with registers intact, every pipe is drained at the end and compared; non-trivial = write→partial read→read on one pipe, or two pipes interleaved; distinct by hash(history)".into()
     }
+    fn post_check(&mut self, hist: &std::collections::BTreeMap<String, u64>, _tier: Tier) -> Vec<(String, String)> {
+        // at most 4 pipes = 8 descriptors out of 65 536 numbers: a random collision hits < 0.05 % of the
+        // attempts; 2 % is 40× that
+        let att = hist.get("pipe-create-beside-existing-pipes").copied().unwrap_or(0);
+        let refused = hist.get("pipe-create-refused-beside-existing-pipes").copied().unwrap_or(0);
+        if att >= 1000 && refused * 50 > att {
+            return vec![("C14|pipe|creation-refused-far-more-often-than-random-collisions".into(), format!("pipe() beside existing pipes was refused in {} of {} histories; random descriptor collisions explain < 0.05 %", refused, att))];
+        }
+        vec![]
+    }
     fn required_classes(&self, _tier: Tier) -> Vec<String> {
         ["write-partial-read-read", "two-pipes-interleaved", "foreign-descriptor", "foreign-descriptor-awkward-buffer", "short-read", "full-read", "read-empty", "read-into-awkward-buffer", "wrong-end-call"].iter().map(|s| s.to_string()).collect()
     }
     fn assumptions(&self) -> Vec<String> {
-        vec!["descriptor values are never compared; the 16 bytes written by pipe() are decoded as two u64, or two i32 if the upper half was left untouched".into(), "a run that ends in the handler's own 'Duplicate … end for pipe' error (random descriptor collision) is discarded and counted".into(), "calls on the wrong end of a pipe get no verdict of their own (the statement does not define them); they are generated only to check that they neither inject bytes into a stream nor consume from it".into()]
+        vec!["descriptor values are never compared; the 16 bytes written by pipe() are decoded as two u64, or two i32 if the upper half was left untouched".into(), "a pipe() refused while other pipes are open (the handler draws 16-bit descriptor numbers at random and refuses a collision) ends the history without a verdict; such refusals may not exceed 2 % of the histories that create a pipe beside existing ones (random collisions explain < 0.05 %); no error text is read".into(), "calls on the wrong end of a pipe get no verdict of their own (the statement does not define them); they are generated only to check that they neither inject bytes into a stream nor consume from it".into()]
     }
 }
